@@ -602,7 +602,7 @@ def run(ctx):
                         "minimise_table is called with at least one minimiser (with methods=() and len(table) == target "
                         "the front end reports failure although the table fits: _identity uses '<')",
                         "CPython: sorted() is stable, dict/set membership semantics"]
-    n = ctx.scale(2000, 50000)
+    n = ctx.scale(2000, 40000)
     if ctx.extended:
         n *= 4
     rng = ctx.rng
